@@ -358,6 +358,43 @@ def _fit(f, TP, slopes):
         return f(tps[1:], t[1:], 0.5)
 
 
+VARIANT_BUDGET = {}
+
+
+def _strided(a):
+    if a.ndim == 0:
+        return a.copy()
+    big = np.zeros(a.shape[:-1] + (2 * a.shape[-1],), dtype=a.dtype)
+    view = big[..., ::2]
+    view[...] = a
+    return view
+
+
+def _readonly(a):
+    b = a.copy()
+    b.flags.writeable = False
+    return b
+
+
+LAYOUTS = [("fortran-order", lambda a: np.asfortranarray(a) if a.ndim >= 2 else a.copy()), ("strided-view", _strided), ("read-only", _readonly)]
+
+
+def _close(r1, r2):
+    if isinstance(r1, (tuple, list)):
+        return isinstance(r2, (tuple, list)) and len(r1) == len(r2) and all(_close(a, b) for a, b in zip(r1, r2))
+    if hasattr(r1, "scrn") or hasattr(r1, "covariance_matrix"):
+        return True
+    try:
+        a, b = np.asarray(r1), np.asarray(r2)
+        if a.shape != b.shape:
+            return False
+        if a.dtype.kind in "fc" or b.dtype.kind in "fc":
+            return bool(np.allclose(a, b, rtol=1e-9, atol=1e-12 * (1 + np.nanmax(np.abs(a)) if a.size else 1), equal_nan=True))
+        return bool(np.array_equal(a, b))
+    except Exception:  # noqa
+        return r1 == r2
+
+
 # ------------------------------------------------------------------ recorder
 class Recorder:
     def __init__(self, entries, rng, equal_pools=False):
@@ -400,6 +437,29 @@ class Recorder:
         if err:
             ev["raised"] = err
         self.events.append(ev)
+        if err is None and before == after and args and not e["exempt"] and VARIANT_BUDGET.get(e["name"], 0) < 2:
+            # the same VALUES in another memory layout / as a read-only array: same result, and nothing may be written
+            VARIANT_BUDGET[e["name"]] = VARIANT_BUDGET.get(e["name"], 0) + 1
+            agree, labels = [], []
+            for label, mk in LAYOUTS:
+                alt = [mk(x) for x in args]
+                try:
+                    with warnings.catch_warnings():
+                        warnings.simplefilter("ignore")
+                        with np.errstate(all="ignore"), contextlib.redirect_stdout(io.StringIO()):
+                            r2 = e["call"](e["fn"], alt)
+                    ok = _close(res, r2) and all(np.array_equal(np.asarray(a0), np.asarray(a1)) for a0, a1 in zip(args, alt))
+                except ValueError as ex:
+                    ok = not ("read-only" in str(ex) or "readonly" in str(ex) or "WRITEABLE" in str(ex))
+                    if ok:                       # some other ValueError for this layout: not a purity matter, do not judge
+                        continue
+                except Exception:  # noqa - a layout the entry point does not accept at all: not judged
+                    continue
+                agree.append(bool(ok))
+                labels.append(label)
+            if agree:
+                self.events.append(dict(op="batch", f=fidx + 1, name=e["name"] + "[" + ",".join(l for l, a in zip(labels, agree) if not a) + "]"
+                                        if not all(agree) else e["name"], single=[True] * len(agree), batched=agree, layouts=labels))
         if e["batch"] and err is None and before == after:
             b = e["batch"]
             agree = []
@@ -492,7 +552,7 @@ def validate(run, traces, label):
     tmp = tempfile.mkdtemp(prefix="aoverif-c20-")
     try:
         path = os.path.join(tmp, "traces.json")
-        lite = [[{k: v for k, v in ev.items() if k not in ("name", "raised")} for ev in t] for t in traces]
+        lite = [[{k: v for k, v in ev.items() if k not in ("name", "raised", "layouts")} for ev in t] for t in traces]
         with open(path, "w") as fh:
             json.dump(lite, fh)
         r = run.tlc("PurityTrace", "PurityTrace.cfg", label=label, env={"TRACE_FILE": path}, workers=4,
@@ -514,6 +574,10 @@ def explain(trace, l):
     """which clause of TraceCall / TraceBatch refuses event l (1-based)"""
     ev = trace[l - 1]
     if ev["op"] == "batch":
+        if "layouts" in ev:
+            bad_l = [l for l, a in zip(ev["layouts"], ev["batched"]) if not a]
+            kind = "writes-into-argument" if bad_l == ["read-only"] else "layout-dependent"
+            return "%s:%s" % (kind, ev["name"].split("[read-only")[0]), dict(entry=ev["name"], layouts=bad_l)
         return "batch-itemwise:" + ev["name"], dict(entry=ev["name"], items_agree=ev["batched"])
     if ev["op"] == "call":
         if ev["after"] != ev["before"]:
